@@ -721,8 +721,8 @@ impl Property for C20 {
     }
     fn cases(&self, tier: Tier) -> usize {
         match tier {
-            Tier::Quick => 6000,
-            Tier::Thorough => 120000,
+            Tier::Quick => 30000,
+            Tier::Thorough => 180000,
         }
     }
     crate::typed_property!(C20, C20Case);
